@@ -1183,7 +1183,8 @@ func (x *Exec) typeAssert(st *State, fr *Frame, i *ssa.TypeAssert) {
 		if types.AssignableTo(i.X.Type(), at) {
 			ok = Neq(v.Term, IntLit(0))
 		} else {
-			f := Fresh("implements$"+sanitize(typeName(at)), SBool)
+			// whether a value implements an interface is a function of its dynamic type
+			f := UF("implements$"+sanitize(typeName(at)), SBool, dynType(v.Term))
 			ok = And(Neq(v.Term, IntLit(0)), f)
 		}
 		res = &Val{T: at, Term: v.Term}
